@@ -105,3 +105,36 @@ def fi_ops(shape):
     else:
         raise KeyError(shape)
     return ops
+
+
+def small_ops(shape):
+    """A reduced alphabet (one op per kind, shorts and closes included) for the explorers whose
+    cost is multiplied by placements x nodes x properties (C08)."""
+    if shape in ("T1", "T1lazy", "T1c"):
+        return [
+            ["next"], ["update"], ["adjust", R, 16.0, True], ["adjust", R, -8.0, False],
+            ["alloc", R, "a", 16.0], ["alloc", R, "b", -16.0], ["reb", R, "b", 0.5], ["close", R, "a"],
+            ["transact", R, "b", 3.0], ["flatten", R], ["batch", [["alloc", R, "a", 16.0], ["alloc", R, "b", -8.0]]],
+        ]
+    if shape == "T2":
+        return [
+            ["next"], ["update"], ["adjust", R, 16.0, True],
+            ["alloc", R, "s1", 16.0], ["alloc", R, "s1", -8.0], ["alloc", ["s1"], "a", 8.0], ["alloc", ["s2"], "a", -4.0], ["alloc", R, "b", 8.0],
+            ["reb", R, "s2", 0.25], ["reb", ["s1"], "b", -0.25], ["close", R, "s1"], ["flatten", ["s1"]], ["allocself", ["s1"], 8.0], ["transact", ["s1"], "a", 2.0],
+        ]
+    if shape == "T3":
+        return [
+            ["next"], ["update"], ["adjust", R, 16.0, True], ["alloc", ["s1", "s11"], "a", 8.0], ["alloc", ["s1"], "b", -4.0],
+            ["reb", ["s1"], "s11", 0.5], ["close", ["s1"], "s11"], ["close", R, "s1"], ["flatten", ["s1"]], ["allocself", ["s1"], 8.0],
+        ]
+    if shape == "F1":
+        return [
+            ["next"], ["update"], ["adjust", R, 16.0, True], ["transact", R, "f", 8.0], ["transact", R, "c", -12.0], ["transact", R, "h", 2.0], ["transact", R, "ch", 4.0], ["transact", R, "e", 2.0],
+            ["close", R, "c"], ["flatten", R], ["rebbase", R, "f", 0.5, 16.0], ["algos", R, {"weights": {"f": 0.5, "c": 0.25}, "notional_value": 32.0}, "Rebalance"],
+        ]
+    if shape == "F2":
+        return [
+            ["next"], ["update"], ["transact", ["sf"], "f", 8.0], ["transact", ["sf"], "c", -12.0], ["transact", R, "e", 2.0], ["stransact", ["sf"], 8.0],
+            ["close", R, "sf"], ["flatten", ["sf"]], ["rebbase", R, "sf", 0.5, 32.0], ["rebbase", ["sf"], "c", 0.5, 16.0],
+        ]
+    raise KeyError(shape)
